@@ -10,7 +10,7 @@ seed = sys.argv[sys.argv.index("--seed")+1] if "--seed" in sys.argv else "1"
 name = os.path.basename(out)
 wt = "/tmp/mv-" + name
 env = dict(os.environ, GOFLAGS="-mod=mod", GOPROXY="off")
-def sh(cmd, cwd=None, timeout=3000, e=None):
+def sh(cmd, cwd=None, timeout=1500, e=None):
     p = subprocess.run(cmd, shell=True, cwd=cwd, env=e or env, stdout=subprocess.PIPE, stderr=subprocess.STDOUT, text=True, timeout=timeout)
     return p.returncode, p.stdout
 subprocess.run("git -C /repo worktree remove --force %s 2>/dev/null; git -C /repo worktree add --detach %s HEAD -q" % (wt, wt), shell=True)
@@ -20,6 +20,9 @@ demo = meta["demo"]
 _m = re.search(r"(go (?:test|run)\b[^&;|]*)", demo)
 if _m:
     demo = _m.group(1).strip()
+    demo = re.split(r"\s{2,}|\s\(", demo)[0].strip()
+if "./server/" in demo and "server/commitlog" not in demo and "server/protocol" not in demo and "server/encryption" not in demo:
+    demo = "flock -w 900 /tmp/liftbridge-server-tests.lock " + demo
 res = {"mutant": name, "property": prop, "summary": meta.get("summary"), "needs": meta.get("needs"), "demo": demo}
 # place demo files
 m = re.search(r"(\./[\w/\.]+)\s*/?\s*$", demo.strip()) or re.search(r"(\./server[\w/]*)", demo)
